@@ -32,3 +32,5 @@ Definition classified_ranges : list (string * range_class) :=
 
 (* how Normalize drives the JSON-LD processor: default options (JSON-LD 1.1), empty base, empty context *)
 Definition ref_normalize_options : list string := ["NewJsonLdOptions("""")"; "Flatten(json, context, options)"].
+Definition ref_sk_yaml_get : string := "if y.data != nil && y.data.Kind == yaml.MappingNode { for { if k.Kind == yaml.ScalarNode && k.Value == key { return } } }; return".
+Definition ref_sk_iri_expander_from : string := "call make; call MergeObjectMap; range profile.Prefixes {  }; return".
